@@ -33,3 +33,12 @@ package protocols
 
 // Output and diagnostics may not depend on the iteration order of a Go map (C12): decided per `range` over a map.
 //@ map-order C12 package
+
+// C07 "each stream step any number of times and then ended or exhausted": the reader hands out a generator over the
+// stream; the state moves to the next step on the statement *after* the `yield from`, i.e. only when the consumer has
+// exhausted the stream - not when it abandons the generator (a `finally:` would run then). The body of the generated
+// helper is exactly these two statements, in this order, at one indentation level.
+//@ func writeAbstractReader@emits:"yield from iterable\n"
+//@   property C07
+//@   inline
+//@   ensures the_state_advances_only_after_the_stream_is_exhausted: emittedHere("yield from iterable\n") == 1 && emittedHere("self._state = final_state\n") == 1 && emittedHere("<indent>") == 0
